@@ -58,23 +58,23 @@ CHECKS["C19"] = ("fault_enumeration", "runtime monitoring: fault enumeration - a
 # what the seventh round of seeded validation added to each workload (DESIGN.md §11.6)
 ROUND7 = {
  "C01": "IN-subqueries with an ORDER BY ... LIMIT of their own; constants at the ends of the 64-bit integer ranges against natively typed columns. Constants written with leading zeros; a share of the cases under PostgresEscapingDialect; the table under a dotted path with columns qualified by its last part or the whole path.",
- "C02": "The table also as inner arrays of a fan-out path (with and without WHERE); column names with letters beyond ASCII, plain and qualified.",
+ "C02": "The table also as inner arrays of a fan-out path (with and without WHERE); column names with letters beyond ASCII, plain and qualified. Finite results through an infinite intermediate; inner-array sources under the naming modes.",
  "C03": "GROUP BY spelling the grouping columns the other way than the select list; column names that are not plain words. Whole-number members around and beyond 2^63 (exact sums); column names that begin with the table's name.",
  "C05": "DISTINCT * / UNION of whole rows under a partial ORDER BY (a permutation of the unordered query); an aggregate next to plain columns under LIMIT. Equal keys under different Go types within one column (the next key decides); zero-padded LIMIT / OFFSET literals.",
  "C06": "DISTINCT over FUSE(obj). DISTINCT and UNION under an ORDER BY (same multiset); doubles that differ in their last digits only.",
  "C07": "Chains of CTEs that all carry names of document tables; EXISTS with the outer row named through its alias (also as the path to the nested table) or its table's own name. Derived tables whose ORDER BY shows through ties of the outer ORDER BY; ragged nested rows under an alias in EXISTS.",
- "C08": "IN lists whose items are computed from the row.",
+ "C08": "IN lists whose items are computed from the row. keep=> without a function in front.",
  "C09": "A function behind a NULL continuation; zero-padded numeric strings, fractions and numbers under the reshape pipe. Keys that differ in blanks only; ranges with a bound left out.",
- "C10": "Background calls one of whose arguments fails or panics; background calls that read whole rows of a derived table.",
- "C11": "Columns spelled with the table's own name as select items, function arguments and in arithmetic; NOT over an un-aliased table with whole rows in the result.",
+ "C10": "Background calls one of whose arguments fails or panics; background calls that read whole rows of a derived table. Union chains of 24..39 branches; DISTINCT * inside EXISTS.",
+ "C11": "Columns spelled with the table's own name as select items, function arguments and in arithmetic; NOT over an un-aliased table with whole rows in the result. Aggregates called with an execution strategy over an array of the row; a subquery over an aliased dual.",
  "C12": "A later query showing whole rows of the same document object; stars over a scope with read and unread CTEs. Objects whose sibling sections flatten to one name under mix=> (24 evaluations).",
- "C13": "HASH / ENCODE over many rows on separate documents; PARALLEL joins whose ON holds a call followed by plain operands; background calls that read rows of a derived table.",
- "C14": "ASYNC calls as the chosen branch of IF; a CTE read by both branches of a UNION; a name registered as plain first and immediate then.",
+ "C13": "HASH / ENCODE over many rows on separate documents; PARALLEL joins whose ON holds a call followed by plain operands; background calls that read rows of a derived table. One text under two option sets at once (expected rows from the harness); stateful ONs under the hash-join spellings.",
+ "C14": "ASYNC calls as the chosen branch of IF; a CTE read by both branches of a UNION; a name registered as plain first and immediate then. Phase 'once-spelling': one ONCE function in several letter cases.",
  "C15": "Sorts of 33..72 rows; comparisons with a computed operand over doubles that differ in their last bits; three-table joins with BETWEEN / NOT over the joined side's column.",
- "C16": "String arguments that are not valid UTF-8; block comments ending in several stars.",
- "C17": "Double-quoted identifiers ending in a backslash.",
+ "C16": "String arguments that are not valid UTF-8; block comments ending in several stars. A negative argument behind a minus sign in front of double-quoted identifiers.",
+ "C17": "Double-quoted identifiers ending in a backslash. Wrapped over a document whose one top-level key is root.",
  "C18": "IF with computed branches and a NULL condition; decimal texts of numbers from 1e6 on and below 1e-4 in CONCAT / CHANGETYPE. Phase 'twins': two calls of one function that differ in letter case only, each alone and both together; IF guarding a branch that cannot be evaluated.",
- "C19": "A CTE first read at execution time as a fault position; type errors through alias-qualified paths on one row.",
+ "C19": "A CTE first read at execution time as a fault position; type errors through alias-qualified paths on one row. A bare non-boolean column as a CASE condition; a panic in the ON of a PARALLEL join.",
  "C20": "DISTINCT over source rows that repeat as a whole; registers written in the arms of a CASE. A CTE with registers in its body read by every branch of a union chain.",
  "C04": "Whole-number keys from 2^63 on.",
 }
